@@ -60,6 +60,15 @@ Theorem C15_app_judgement_sound_all : forall sc, JudgeProfiles.prof_C15 sc = tru
 Proof. exact JudgeProfiles.C15_sound_all. Qed.
 
 
+(* ---- source tie, third wave (DESIGN 11.7): the input reader / Negate / SwizzleAxis regenerated from the Rust source ---- *)
+From BEI Require Generated.ReaderSrc Generated.ModifSrc Proofs.SrcTie3P.
+Theorem C15_source_reader_value : forall r c dev i, ReaderSrc.InputReader_value_src (SrcTie3P.reader_of r c dev) i = Reader.reader_value r c dev i.
+Proof. exact SrcTie3P.InputReader_value_tie. Qed.
+
+Theorem C15_source_mod_keys_pressed : forall r c dev m, ReaderSrc.InputReader_mod_keys_pressed_src (SrcTie3P.reader_of r c dev) m = Reader.mod_keys_pressed r c m.
+Proof. exact SrcTie3P.mod_keys_pressed_tie. Qed.
+
+
 Print Assumptions C15_read.
 Print Assumptions C15_other_keys_irrelevant.
 Print Assumptions C15_other_keys_irrelevant_mouse.
@@ -86,3 +95,5 @@ Print Assumptions C15_app_judgement_sound.
 Print Assumptions C15_app_judgement_transfer.
 Print Assumptions C15_app_judgement_sound_consuming.
 Print Assumptions C15_app_judgement_sound_all.
+Print Assumptions C15_source_reader_value.
+Print Assumptions C15_source_mod_keys_pressed.
